@@ -73,9 +73,10 @@ def section(st, args, roundtrip):
 
 
 DECLS = r'''
+#include <map>
 static unsigned long long g_rt = 0, g_rtviol = 0;
 static void rtv(const char *what, int oi, const unsigned char *p, int len, const std::string &t) {
-  ++g_rtviol; if (g_rtviol > 12) return;
+  ++g_rtviol; static std::map<std::string, int> per_kind; if (per_kind[what]++ >= 6) return;
   std::string o = "RTVIOL "; o += what; char b[32]; std::snprintf(b, sizeof b, " opt=%d buf=", oi); o += b; vk::hex(o, p, len); o += " text=";
   for (size_t i = 0; i < t.size() && i < 400; ++i) o += (t[i] == '\n') ? '|' : t[i];
   o += '\n'; fwrite(o.data(), 1, o.size(), stdout);
@@ -270,7 +271,7 @@ def check_prog(case):
             per_buffer[hx] = k + 1
             pi = k
             texts += 1
-            if len(viol) > 12:
+            if len([v for v in viol if v["key"] == "text-content-wrong"]) > 12:
                 continue
             params = dict(zip([p for p, _t2 in st.params], prog.param_tuples[pi] if pi < len(prog.param_tuples) else ()))
             # with several parameter tuples only some are Ok for a buffer: match by trying tuples in order
@@ -332,7 +333,7 @@ CODEC_DRV = r'''
 #include "prog.emb.h"
 namespace G = ::emboss_generated_code;
 static unsigned long long g_n = 0, g_viol = 0;
-static void vio(const char *what, const char *field, long long v, const std::string &t) { ++g_viol; if (g_viol < 30) std::printf("CODECVIOL %s %s v=%lld text=%s\n", what, field, v, t.c_str()); }
+static void vio(const char *what, const char *field, long long v, const std::string &t) { ++g_viol; static int per[8]; int k = what[0] % 8; if (per[k]++ < 12) std::printf("CODECVIOL %s %s v=%lld text=%s\n", what, field, v, t.c_str()); }
 template <class F, class T> static void rt(unsigned char *buf, F get, const char *name, T v) {
   for (int base = 0; base < 3; ++base) for (int grp = 0; grp < 2; ++grp) {
     auto view = G::MakeCcView(buf, 30);
@@ -391,15 +392,17 @@ int main() {
 '''
 
 
-def check_codec():
+def check_codec(flags=("-O1",), sanitized=False):
     headers, err, ex = cppdrv.compile_headers({"m.emb": CODEC_EMB}, "m.emb")
     if ex is not None or err:
         return {"viol": [{"key": "codec-module-rejected", "msg": "%r %r" % (err, ex)}], "n": 1}
     bad = ", ".join('"%s"' % b for b in MALFORMED_NUM)
     with cppdrv.Scratch() as sc:
-        res = cppdrv.build_and_run(sc, headers, "m.emb.h", CODEC_DRV.replace("@BAD@", bad), flags=["-O1"])
+        res = cppdrv.build_and_run(sc, headers, "m.emb.h", CODEC_DRV.replace("@BAD@", bad), flags=list(flags))
     if res["compile_rc"] != 0:
         return {"viol": [{"key": "header-does-not-compile", "msg": res["compile_err"][-700:]}], "n": 1}
+    if sanitized and (res["run_rc"] != 0 or res["stderr"].strip()):
+        return {"viol": [{"key": "sanitizer-report-in-text-codec", "msg": "rc=%s %s" % (res["run_rc"], res["stderr"][:500])}], "n": 1}
     if res["run_rc"] != 0:
         return {"viol": [{"key": "driver-crashed", "msg": "rc=%s %s" % (res["run_rc"], res["stderr"][-400:])}], "n": 1}
     out = res["stdout"].decode("utf-8", "replace")
